@@ -110,6 +110,9 @@ Proof.
                  | match goal with |- same_mod (if ?x then _ else _) _ => destruct x eqn:? end ].
   - repeat first [ assumption | apply same_finish | solve [apply same_commit; [assumption|reflexivity]]
                  | match goal with |- same_mod (match ?x with _ => _ end) _ => destruct x eqn:? end
+                 | match goal with |- same_mod (if ?x then _ else _) _ => destruct x eqn:? end ].
+  - repeat first [ assumption | apply same_finish | solve [apply same_commit; [assumption|reflexivity]]
+                 | match goal with |- same_mod (match ?x with _ => _ end) _ => destruct x eqn:? end
                  | match goal with |- same_mod (if ?x then _ else _) _ => destruct x eqn:? end
                  | match goal with |- same_mod (let '(_, _) := ?x in _) _ => destruct x eqn:? end ].
   - repeat first [ assumption | apply same_finish | solve [apply same_commit; [assumption|reflexivity]]
